@@ -80,8 +80,9 @@ CHECKS['C02'] = {
              "order, a subsequence of the requests pulled from requestors (at most once each, in sending order, only the tag changed); the replies delivered are, in order, a subsequence of "
              "what the replier's emissions deserve - the requestor holding the key of the tag, tag stripped, rest intact - so each reply goes at most once to the requestor it answers and to "
              "nobody else, and a reply with a missing/unknown/malformed tag is delivered to no one; every pulled request is handed over, refused by the replier's own sink, superseded in the "
-             "one-request buffer or still buffered, and it is superseded only while NO replier is bound (exactly once under a bound replier). NOT YET PROVED (evaluated as a predicate on "
-             "every implementation trace and on the model state): that a discarded reply never deserved a live requestor; liveness of hand-over is checked on drained traces."),
+             "one-request buffer or still buffered, and it is superseded only while NO replier is bound (exactly once under a bound replier). and a reply is discarded only for a missing/malformed tag, a key not yet issued when it was emitted, "
+             "or a requestor no longer registered - never one that is still connected. Not a theorem: liveness (a bound replier is eventually offered the buffered request, deserved replies are "
+             "eventually delivered and flushed), checked on drained implementation traces."),
     'note': ROUTER_NOTE,
     'design': 'DESIGN.md section 3 C02',
 }
